@@ -2421,3 +2421,31 @@ breaker('C13', 'wrapper-changed-since-end-before-compare', 'C13.R14', BLOBPY,
                             return False
                         if d1 != f2.read(1 << 16):
                             return True''')
+
+# ---- F57 / F58 ---------------------------------------------------------------
+breaker('C03', 'readcurrent-without-join', 'C03.R10', CONNPY,
+        'Connection.readCurrent',
+        '''            if self._needs_to_join:
+                # The dependency is checked when this connection commits:
+                # it has to take part in the transaction even if it
+                # writes nothing itself.
+                self.transaction_manager.get().join(self)
+                self._needs_to_join = False
+''',
+        '''''')
+breaker('C03', 'readcurrent-ghost-not-loaded', 'C03.R10', CONNPY,
+        'Connection.readCurrent',
+        '''        if ob._p_changed is None:
+            # A ghost has no serial yet: load it, so that there is a
+            # revision to depend on.
+            ob._p_activate()
+''',
+        '''''')
+twin('C03', 'readcurrent-activate-always', CONNPY, 'Connection.readCurrent',
+     '''        if ob._p_changed is None:
+            # A ghost has no serial yet: load it, so that there is a
+            # revision to depend on.
+            ob._p_activate()
+''',
+     '''        ob._p_activate()
+''')
